@@ -78,7 +78,11 @@ TOExec ==
          keep(i) == KeepOpen(ct, fr, oq.ws[i], oq.wc[i])
          lost == {i \in 1..Len(oq.q) : oq.clear[i] /\ keep(i) /\ o.far[i]}
          extra == {i \in 1..Len(oq.q) : oq.clear[i] /\ ~keep(i) /\ o.near[i]}
-     IN /\ Chk(o.stray = {}, "C05", "solution_not_on_open_subject", Ev.ko)
+         closedOnly == "noopen" \in DOMAIN Ev     \* the Execute overload without an open-solution argument: only the closed-region clause applies
+     IN IF closedOnly
+        THEN cs.gp => Chk(\A i \in 1..Len(cs.pts) : cs.clearT[i] => outs[Ev.k].cover[i] = outs[Ev.k0].cover[i], "C05", "open_subjects_change_closed_region", Ev.k)
+        ELSE
+        /\ Chk(o.stray = {}, "C05", "solution_not_on_open_subject", Ev.ko)
         /\ IF o.short THEN Note("open_solution_path_with_fewer_than_2_points", Ev.ko) ELSE TRUE   \* observation only: not demanded by C05
         /\ (cs.gp => /\ Chk(lost = {}, "C05", "kept_part_missing", IF lost = {} THEN 0 ELSE CHOOSE i \in lost : TRUE)
                      /\ Chk(extra = {}, "C05", "dropped_part_present", IF extra = {} THEN 0 ELSE CHOOSE i \in extra : TRUE)
